@@ -268,8 +268,16 @@ class CPU:
     def step(self):
         r = self.r
         pc = r[PC]
-        op = self.m1(pc)
-        if op == 0xCB:
+        if r[HALT] and self.peek(pc) == 0x76:
+            # a halted CPU keeps fetching (and discarding) the byte after the HALT: the address on the bus is PC+1
+            self.m1(pc + 1)
+            self.name = 'HALT'
+            op = None
+        else:
+            op = self.m1(pc)
+        if op is None:
+            pass
+        elif op == 0xCB:
             self.exec_cb(pc)
         elif op == 0xED:
             self.exec_ed(pc)
